@@ -22,6 +22,21 @@ out.append("|---|---|---|---|---|---|---|")
 for f in sorted(glob.glob(os.path.join(V, "seeded", "*", "meta.json"))):
     m = json.load(open(f))
     out.append("| %s | %s | %s | %s | %s | `%s` | %s |" % (m["id"], m["breaks_property"], m["what_it_needs_to_manifest"].replace("|", "/"), m["first_result"], m["result_now"], m.get("oracle", ""), m.get("strengthening", "").replace("|", "/")))
+out.append("")
+out.append("### 13.3 Property-preserving changes on which every check must stay silent (`check selftest benign`)\n")
+p = os.path.join(V, "selftest", "benign.json")
+if os.path.exists(p):
+    rows = json.load(open(p))
+    names = sorted({r["variant"] for r in rows})
+    out.append("Last full run: %d of %d (variant, property) pairs silent (20 000 runs each).\n" % (sum(1 for r in rows if r["status"] == "silent"), len(rows)))
+    out.append("| change (`benign/<name>.diff`) | checks run | result |")
+    out.append("|---|---|---|")
+    for n in names:
+        rs = [r for r in rows if r["variant"] == n]
+        bad = [r for r in rs if r["status"] != "silent"]
+        out.append("| %s | %s | %s |" % (n, " ".join(r["property"] for r in rs), "all silent" if not bad else "; ".join("%s: %s %s" % (r["property"], r["status"], r["oracle"]) for r in bad)))
+else:
+    out.append("(no self-test result recorded yet)")
 text = "\n".join(out) + "\n"
 d = os.path.join(V, "DESIGN.md")
 s = open(d).read()
